@@ -342,6 +342,9 @@ def n_jobs_cases(draw):
 
 
 # ------------------------------------------------------------------ strategies
+N_INTERVALS = (3, "random", "sqrt", "log", 0.25, 1)
+
+
 @st.composite
 def cases(draw, reproducible=False):
     fam = draw(st.sampled_from(["forecaster", "forecaster", "series_transformer", "series_transformer", "panel_transformer", "panel_estimator"]))
@@ -361,6 +364,9 @@ def cases(draw, reproducible=False):
         c["spec"] = draw(panelpool.series_transformer_specs)
     elif fam == "panel_transformer":
         c["spec"] = {"kind": draw(st.sampled_from([k for k in panelpool.PANEL_TRANSFORMERS if k != "plateau"]))}
+        if c["spec"]["kind"] in ("riseg", "rife"):
+            # every documented way of giving the number of random intervals
+            c["spec"]["n_intervals"] = draw(st.sampled_from(N_INTERVALS))
     else:
         c["spec"] = {"kind": draw(st.sampled_from(panelpool.CLASSIFIERS + ("tsfr",))), "n_columns": draw(st.integers(1, 2))}
     return c
@@ -380,7 +386,9 @@ def enum_purity_all_kinds(tier):
         if k == "plateau":
             continue
         for cont in ("nested", "numpy3d"):
-            yield dict(base, family="panel_transformer", spec={"kind": k}, as_frame=False, container=cont)
+            for ni in (N_INTERVALS if k in ("riseg", "rife") else (None,)):
+                yield dict(base, family="panel_transformer", spec={"kind": k} if ni is None else {"kind": k, "n_intervals": ni},
+                           as_frame=False, container=cont)
     for k in panelpool.CLASSIFIERS + ("tsfr",):
         for cont in ("nested", "numpy3d"):
             yield dict(base, family="panel_estimator", spec={"kind": k, "n_columns": 1}, as_frame=True, container=cont)
